@@ -185,7 +185,7 @@ static void mul_sweep(const char *name, mul_fn f, int N)
 }
 
 /* long blocks: one accumulate of source vec_i = 1 (k = 3) onto non-zero parity, counters/offsets beyond 64 KiB and 1 MiB */
-static void run_big(const struct ecimpl *im, int len, int w)
+static void run_big(const struct ecimpl *im, int len, int w, int start_aligned)
 {
 	char key[256];
 	int k = 3, rows = w, vi = 1;
@@ -195,11 +195,11 @@ static void run_big(const struct ecimpl *im, int len, int w)
 	for (int i = 0; i < k * rows; i++)
 		A[i] = (uint8_t)(0x35 + i * 23);
 	ec_tables(im, k, rows, A, tbl);
-	uint8_t *src = g_alloc(len, G_END);
+	uint8_t *src = start_aligned ? g_alloc_off(len, 0) : g_alloc(len, G_END);
 	fill_xorshift(src, len, 77);
 	uint8_t *before = malloc((size_t)len * rows);
 	for (int r = 0; r < rows; r++) {
-		dst[r] = g_alloc(len, G_END);
+		dst[r] = start_aligned ? g_alloc_off(len, 0) : g_alloc(len, G_END);
 		fill_xorshift(dst[r], len, 900 + r);
 		memcpy(before + (size_t)r * len, dst[r], len);
 	}
@@ -272,13 +272,14 @@ int main(int argc, char **argv)
 		int w = im->width ? im->width : 7;
 		/* long blocks */
 		{
-			static const int bigl[] = { 65536 + 17, (1 << 20) + 33, (1 << 24) + 65 };
-			for (int bi = 0; bi < (v_thorough ? 3 : 2); bi++)
-				if (v_mine(unit++)) {
-					if (v_deadline_hit() || nfail > 60)
-						goto out;
-					run_big(im, bigl[bi], w);
-				}
+			static const int bigl[] = { 65536 + 17, (1 << 20) + 33, 1 << 20, (1 << 20) + 64, (1 << 24) + 65 };
+			for (int bi = 0; bi < (v_thorough ? 5 : 4); bi++)
+				for (int sa = 0; sa < 2; sa++)
+					if (v_mine(unit++)) {
+						if (v_deadline_hit() || nfail > 60)
+							goto out;
+						run_big(im, bigl[bi], w, sa);
+					}
 		}
 		/* (a) shape sweep k=3: one accumulate onto non-zero parity per source index, every length, placements */
 		ec_coeffs(A, RMAX * 3, 1);
